@@ -1,12 +1,115 @@
 (* C08 - NSTART bounds in-flight Confirmables; held messages go out in order, none lost.
-   Statements only; proofs live in Nstart/NstartProofs.v. *)
+   Statements only; proofs live in Nstart/NstartProofs.v.
+
+   Model (Nstart/Nstart.v): one datagram session of libcoap - state, con_active, delay queue,
+   this session's nodes of the send queue - under every sequence of events
+   Submit CON|NON, ACK, RST, timer, separate response (cancel by token), Up, Fail.
+   [ns_wf c] = the RST branch as repaired (/repo adf1662) and 0 <= NSTART <= 255 (con_active
+   is a uint8_t).  [NoDup (ns_sub_mids evs)] = the application uses fresh message ids
+   (coap_new_message_id).  No hypothesis on the peer is needed for the repaired code: the
+   theorems hold for ACKs / RSTs of arbitrary ids, which includes the property's peer. *)
 From LibcoapV Require Import Base.Tactics Nstart.Nstart Nstart.NstartProofs.
 Local Open Scope Z_scope.
 
+(* Bound, for every reachable state and on the observable history.  con_active is exactly the
+   number of this session's nodes in the send queue, all of them are CONs, there are at most
+   NSTART of them; the delay queue holds only messages that were never transmitted
+   (retransmit_cnt = 0); and the in-flight list that the history checker computes from the wire
+   alone (transmitted, minus acknowledged / reset / given up / cancelled / failed) is that set,
+   so it never exceeds NSTART either - at every prefix, since evs is arbitrary. *)
+Theorem C08_bound : forall c est0 evs, ns_wf c -> NoDup (ns_sub_mids evs) ->
+  let s := ns_run c (ns_init est0) evs in
+  ns_act s = Z.of_nat (length (ns_sq s)) /\
+  forallb ns_ncon (ns_sq s) = true /\
+  Z.of_nat (length (ns_sq s)) <= ns_nstart c /\
+  forallb ns_cnt0 (ns_dq s) = true /\
+  exists m, ns_mon_run c (ns_mkmon true est0 [] []) (ns_trace c (ns_init est0) evs) = Some m /\
+            ns_minfl m = map ns_nmsg (ns_sq s) /\ ns_mpend m = map ns_nmsg (ns_dq s) /\
+            Z.of_nat (length (ns_minfl m)) <= ns_nstart c.
+Proof. exact ns_bound. Qed.
+Print Assumptions C08_bound.
+
+(* FIFO, none lost: the messages that left the delay queue (first transmission outside their
+   own coap_send, or discarded by a disconnect), in the order in which they left it, followed
+   by what is still waiting, are exactly the held submissions in submission order. *)
+Theorem C08_fifo_once : forall c est0 evs, ns_wf c ->
+  let t := ns_trace c (ns_init est0) evs in
+  ns_released t ++ map ns_nmsg (ns_dq (ns_run c (ns_init est0) evs)) = ns_held t.
+Proof.
+  intros c est0 evs Hwf. exact (ns_fifo_once c Hwf evs _ (ns_init_inv c est0 Hwf)).
+Qed.
+Print Assumptions C08_fifo_once.
+
+(* exactly once: no message id is transmitted for the first time twice *)
+Theorem C08_once : forall c est0 evs, ns_wf c -> NoDup (ns_sub_mids evs) ->
+  NoDup (map ns_mid (ns_txs (flat_map snd (ns_trace c (ns_init est0) evs)))).
+Proof. intros c est0 evs Hwf. exact (ns_tx_once c Hwf est0 evs). Qed.
+Print Assumptions C08_once.
+
+(* nothing waits without a reason: on an established session the oldest held message is a
+   CON and all NSTART slots are taken *)
+Theorem C08_no_needless_hold : forall c est0 evs, ns_wf c ->
+  let s := ns_run c (ns_init est0) evs in
+  ns_est s = true ->
+  match ns_dq s with
+  | [] => True
+  | q :: _ => ns_ncon q = true /\ Z.of_nat (length (ns_sq s)) = ns_nstart c
+  end.
+Proof. exact ns_no_needless_hold. Qed.
+Print Assumptions C08_no_needless_hold.
+
+(* a NON submitted on an established session is transmitted inside coap_send (any state) *)
+Theorem C08_non_not_delayed : forall c s m,
+  ns_open s = true -> ns_est s = true -> ns_con m = false ->
+  ns_step c s (NsSubmit m) = (s, [NsAcc; NsTx m]).
+Proof. exact ns_non_not_delayed. Qed.
+Print Assumptions C08_non_not_delayed.
+
+(* the session fails: every held CON is reported by exactly one NACK, nothing that was held is
+   transmitted by the disconnect or at any time afterwards *)
+Theorem C08_fail_nacks : forall c est0 evs r, ns_wf c -> NoDup (ns_sub_mids evs) -> r <> ns_ICMP ->
+  let s := ns_run c (ns_init est0) evs in
+  ns_open s = true ->
+  let s' := fst (ns_step c s (NsFail r)) in
+  let o := snd (ns_step c s (NsFail r)) in
+  ns_dq s' = [] /\ ns_sq s' = [] /\ ns_txs o = [] /\ ns_res o = [] /\
+  (forall q, In q (ns_dq s) -> ns_ncon q = true -> ns_nack_count (ns_nmid q) o = 1%nat) /\
+  (forall evs', ns_txs (flat_map snd (ns_trace c s' evs')) = [] /\
+                ns_res (flat_map snd (ns_trace c s' evs')) = []).
+Proof. exact ns_fail_nacks. Qed.
+Print Assumptions C08_fail_nacks.
+
+(* the property as a checker of observable histories (the oracle that runs on the
+   implementation's own traces): it accepts every history of the model ... *)
+Theorem C08_checker_accepts_model : forall c est0 evs, ns_wf c -> NoDup (ns_sub_mids evs) ->
+  ns_accepts c est0 (ns_trace c (ns_init est0) evs) = true.
+Proof. exact ns_accepts_all. Qed.
+Print Assumptions C08_checker_accepts_model.
+
+(* ... and whatever it accepts - from any implementation - never has more than NSTART CONs in
+   flight *)
+Theorem C08_checker_sound_bound : forall c, 0 <= ns_nstart c -> forall t m m',
+  Z.of_nat (length (ns_minfl m)) <= ns_nstart c ->
+  ns_mon_run c m t = Some m' -> Z.of_nat (length (ns_minfl m')) <= ns_nstart c.
+Proof. exact ns_accepts_bound. Qed.
+Print Assumptions C08_checker_sound_bound.
+
+(* the hypotheses are satisfiable by a non-trivial history *)
+Theorem C08_example :
+  ns_wf ns_cfg_ex /\ NoDup (ns_sub_mids ns_evs_ex) /\
+  map ns_mid (ns_held (ns_trace ns_cfg_ex (ns_init false) ns_evs_ex)) = [1; 2; 3; 4; 5; 8] /\
+  map ns_mid (ns_released (ns_trace ns_cfg_ex (ns_init false) ns_evs_ex)) = [1; 2; 3; 4; 5; 8] /\
+  map ns_mid (ns_txs (flat_map snd (ns_trace ns_cfg_ex (ns_init false) ns_evs_ex))) = [1; 2; 3; 6; 4; 5; 7] /\
+  ns_accepts ns_cfg_ex false (ns_trace ns_cfg_ex (ns_init false) ns_evs_ex) = true /\
+  ns_nack_count 8 (flat_map snd (ns_trace ns_cfg_ex (ns_init false) ns_evs_ex)) = 1%nat.
+Proof. exact ns_example. Qed.
+Print Assumptions C08_example.
+
 (* The code as found (pinned commit, ns_fixed = false): the RST branch of coap_dispatch
-   decrements con_active before it looks the message id up.  A peer that resets a NON it
-   received releases a held CON while another one is still in flight. *)
-Theorem C08_bound_refuted :
+   decremented con_active before it looked the message id up.  A peer that resets a NON it
+   received releases a held CON while another one is still in flight (replayed on the real code:
+   corpus/C08/fixed.case; repaired by /repo adf1662). *)
+Theorem C08_found_bound_refuted :
   exists evs,
     let t := ns_trace ns_cfg_found (ns_init true) evs in
     let s := ns_run ns_cfg_found (ns_init true) evs in
@@ -16,4 +119,4 @@ Theorem C08_bound_refuted :
     map ns_mid (ns_txs (flat_map snd t)) = [1; 2; 3] /\
     Z.of_nat (length (ns_sq s)) > ns_nstart ns_cfg_found.
 Proof. exact ns_bound_refuted_found. Qed.
-Print Assumptions C08_bound_refuted.
+Print Assumptions C08_found_bound_refuted.
